@@ -1,8 +1,71 @@
-"""C08 — ring engine (ChordKV / Trace_ChordKV); see ringcheck.py."""
-import ringcheck
+"""C08 — ring engine (ChordKV / Trace_ChordKV); see ringcheck.py.
+
+Lock order: a join request that holds the granting node's surrogateMu (parked at the sub-gate inside RequestToJoin) while every
+other thing that node does meanwhile - its own maintenance, its neighbour's stabilize (Notify), a client request, a lookup - runs as
+an operation of its own.  Whatever may have to wait for the join; nothing may make the join wait for ever: at the end the join
+request must have been answered (success or a retryable error) and every operation must have returned."""
+import json
+import vf, ringlib, ringcheck
 
 KINDS = set("nilpred-panic panic join-fatal".split())
 
+OTHERS = [("checkpred", "n3"), ("stabilize", "n3"), ("fixfinger", "n3"), ("stabilize", "n0"), ("put", "n3"), ("lookup", "n3")]
+
+
+def lock_order_scenario(other, dead_pred):
+    kind, at = other
+    lay = [{"n": "n0"}, {"n": "n1"}, {"k": "k0"}, {"n": "n2"}, {"n": "n3"}]
+    steps = [{"do": "create", "n": "n0"}]
+    for m in ("n1", "n3"):
+        steps += [{"do": "start", "op": "init" + m, "kind": "join", "n": m, "via": "n0"}, {"do": "steps", "op": "init" + m}, {"do": "settle"}]
+    steps.append({"do": "settle", "rounds": 12})
+    if dead_pred:     # the granting node's predecessor has left and the node has not noticed yet
+        steps += [{"do": "start", "op": "l1", "kind": "leave", "n": "n1"}, {"do": "steps", "op": "l1"}]
+    # (the request is sent to the granting node itself: with a departed node still in n0's tables it would not be routed there)
+    steps += [{"do": "start", "op": "j2", "kind": "join", "n": "n2", "via": "n3"}, {"do": "until", "op": "j2", "gate": "ns:enter"}]
+    o = {"do": "start", "op": "sbx" if kind == "stabilize" else "ox", "kind": kind}
+    if kind in ("put", "lookup"):
+        o.update(at=at, k="k0", v="5")
+    else:
+        o["n"] = at
+    steps += [o, {"do": "until", "op": "j2", "gate": "join:answered"}, {"do": "steps", "op": o["op"]}, {"do": "steps", "op": "j2"},
+              {"do": "settle", "rounds": 8}, {"do": "steps", "op": "j2"}, {"do": "steps", "op": o["op"]}]
+    return {"name": "lock-order-%s@%s%s" % (kind, at, "-dead-pred" if dead_pred else ""), "layout": lay, "variant": 1,
+            "gates": ["join:", "leave:", "start:", "rtj:lock", "ns:enter"], "critparks": True, "steps": steps, "other": o["op"], "lockorder": True}
+
+
+def lock_order(ck):
+    scs = [ck.replay] if ck.replay is not None else [lock_order_scenario(o, d) for o in OTHERS for d in (False, True)]
+    for sc in scs:       # one driver process each: a deadlocked scenario must not take the others with it
+        ev = ringlib.run_scenarios(ck, [sc], timeout=300)
+        steps = [e for e in ev if e.get("t") == "step"]
+        final = [e for e in ev if "ops" in e and e.get("t") != "step"]
+        ops = final[-1]["ops"] if final else {}
+        parked = any(e.get("op") == "j2" and str(e.get("to", "")).startswith("ns:enter") for e in steps)
+        if not parked:
+            raise vf.Infra("scenario %s: the join request did not reach the sub-gate inside RequestToJoin: %s"
+                           % (sc["name"], [(e.get("op"), e.get("to")) for e in steps if e.get("op") == "j2"]))
+        ck.count(sc["name"], True)
+        ck.traces += 1
+        j, o = ops.get("j2") or {}, ops.get(sc["other"]) or {}
+        gates = lambda name: [e.get("to") for e in steps if e.get("op") == name]
+        if len(ck.samples) < 8:
+            ck.sample({"scenario": sc["name"], "join_gates": gates("j2"), "other_gates": gates(sc["other"]), "join_result": j.get("res"), "other_result": o.get("res")})
+        if not j.get("done") or not o.get("done"):
+            ck.violation("C08:join-never-answered:%s" % sc["name"].split("lock-order-")[1],
+                         "scenario %s: the join request was parked inside RequestToJoin (holding the granting node's surrogateMu) when '%s' started; afterwards %s "
+                         "never return(s): join gates %s, other gates %s" % (sc["name"], sc["name"].split("lock-order-")[1],
+                                                                         " and ".join(n for n, x in (("the join request", j), ("the other operation", o)) if not x.get("done")),
+                                                                         gates("j2"), gates(sc["other"])), sc)
+        elif isinstance(j.get("res"), str) and j["res"].startswith("fatal"):
+            ck.violation("C08:join-fatal:lock-order", "scenario %s: the join request was answered with the non-retryable %s" % (sc["name"], j["res"]), sc)
+
+
 def run(ck):
+    if ck.replay is not None and ck.replay.get("lockorder"):
+        lock_order(ck)
+        return
     ringcheck.engine(ck, "C08", KINDS)
+    if ck.replay is None:
+        lock_order(ck)
     ringcheck.finish_common(ck)
